@@ -186,6 +186,10 @@ func c07Check(c c07Case, r *h.Rec) error {
 		outs := c07Outputs(an, gopathRoot(c.Spec))
 		if first == nil {
 			first = outs
+			// generating twice from one analysis: a target must not leave traces in the shared analysis
+			if d := diffOutputs(outs, c07Outputs(an, gopathRoot(c.Spec))); d != "" {
+				return h.Violf("generating every target a second time from the same analysis gives another text: %s\n%s", d, src())
+			}
 			continue
 		}
 		if d := diffOutputs(first, outs); d != "" {
